@@ -114,6 +114,11 @@ Definition h_multiple (msgs : list pmsg) (evs : list cbev) : pst * list api :=
 Definition h_single (tag qos : Z) (retain bad : bool) (evs : list cbev) : pst * list api :=
   h_multiple [mkP tag qos retain 0 bad] evs.
 
+(* hypothesis of the main theorem: every message is a dict/tuple/list that client.publish() accepts *)
+Definition form_ok (m : pmsg) : bool := (p_form m =? 0) || (p_form m =? 1) || (p_form m =? 2).
+Definition msg_valid (m : pmsg) : bool := publish_ok m && form_ok m.
+Definition msgs_valid (msgs : list pmsg) : bool := forallb msg_valid msgs.
+
 (* the cooperative client: CONNACK accepted, then one on_publish per message *)
 Definition coop (msgs : list pmsg) : list cbev := EConnack 0 :: map (fun _ => EPublished) msgs.
 
@@ -281,6 +286,14 @@ Definition subs (tp : topics) (qos : Z) : list sapi :=
   | TSingle t => [SSubscribe t qos]
   | TList l => map (fun t => SSubscribe t qos) l
   end.
+(* the value simple() returns: one message object when msg_count = 1, else a list *)
+Definition simple_result (n : Z) (retained : bool) (ins : list imsg) : msgs_t :=
+  if n =? 1 then match filter (pass retained) ins with [] => MNone | m :: _ => MSingle m end
+  else MList (simple_collect n retained ins).
+Definition users (out : list sapi) : list imsg :=
+  flat_map (fun a => match a with SUser m => [m] | _ => [] end) out.
+Definition is_ssub (a : sapi) : bool := match a with SSubscribe _ _ => true | _ => false end.
+Definition nonsub (out : list sapi) : list sapi := filter (fun a => negb (is_ssub a)) out.
 Definition ret_list (r : msgs_t) : list imsg :=
   match r with MNone => [] | MSingle m => [m] | MList l => l end.
 Definition ret_is_single (r : msgs_t) : bool := match r with MSingle _ => true | _ => false end.
